@@ -50,3 +50,10 @@ reg("C09",
     "deadline; seeded schedules issue lookups at every gate of concurrent joins and leaves.",
     "Trusts: scaled embedding id = pos*2^(48-B)+1 (real finger 48-B+k = model finger k); maintenance parked while a lookup runs.",
     "TLA+ spec ChordRing: exhaustive TLC (Terminates) + directed replay of counterexamples + seeded controlled schedules in child processes")
+
+
+# fragments contributed per property: checks/reg/<ID>.json = {"id","text","note","technique","level"?}
+import glob as _glob, json as _json, os as _os
+for _f in sorted(_glob.glob(_os.path.join(_os.path.dirname(_os.path.abspath(__file__)), "reg", "*.json"))):
+    _d = _json.load(open(_f))
+    reg(_d["id"], _d["text"], _d["note"], _d["technique"], _d.get("level", "model_checking"))
